@@ -1,6 +1,7 @@
 package main
 
 import (
+	"time"
 	"crypto"
 	"crypto/dsa"
 	"crypto/ecdh"
@@ -131,13 +132,19 @@ var c10Paths = []string{"ssh", "x509", "x509-kubernetes", "role", "refresh", "aw
 
 func TestVerif_C10(t *testing.T) {
 	verifWriteConsts(t)
-	res := newVerifResult("(a) ValidatePublicKeyStrength on synthetic RSA moduli of every bit length 1..4200 x 8 exponents, the four NIST curves, Ed25519 (value and pointer), DSA, X25519, nil; (b) key corpus (RSA 512..4096 incl. 2040..2049 x exponents, P-224/256/384/521, Ed25519, DSA, X25519) x the six issuing paths over HTTP; (c) structure-aware and byte-level mutations of keys, tokens and parameters through every path with a panic-recording wrapper; non-trivial = parser accepted the key or a mutation of a valid blob; distinct by (path, key, status)")
+	res := newVerifResult("(a) ValidatePublicKeyStrength on synthetic RSA moduli of every bit length 1..4200 x 8 exponents, the four NIST curves, Ed25519 (value and pointer), DSA, X25519, nil; (b) key corpus (RSA 512..4096 incl. 2040..2049 x exponents, P-224/256/384/521, Ed25519, DSA, X25519) x the six issuing paths over HTTP; (c) structure-aware and byte-level mutations of keys, tokens and parameters through every path with a panic-recording wrapper; (e) every kind of genuine signed artefact, each claim dropped / type-confused (re-signed with the server key), header variants, corruptions and garbage at every token sink (cookie, token endpoint for secret and PKCE clients, userinfo, CLI verify/send, storage record, level upgrade); non-trivial = parser accepted the key or a mutation of a valid blob; distinct by (path, key, status)")
 	env := verifSetup(t, func(c *AppConfigFile, dir string) {
 		c.Base.AllowedAuthBackendsForWebUI = []string{"password"}
 		c.Base.AllowedAuthBackendsForCerts = []string{"U2F"}
 		c.Base.AutomationUsers = []string{"svc-automation"}
 		c.Base.AdminUsers = []string{"admin"}
 		c.AwsCerts.AllowedAccounts = []string{"123456789012"}
+		// token sinks (stage e): OpenID clients with and without a secret, CLI web-auth tokens
+		c.Base.WebauthTokenForCliLifetime = 10 * time.Minute
+		c.OpenIDConnectIDP.Client = []OpenIDConnectClientConfig{
+			{ClientID: c04ClientA, ClientSecret: c04SecretA, AllowedRedirectDomains: []string{"a.example"}},
+			{ClientID: c04ClientB, ClientSecret: "", AllowedRedirectDomains: []string{"b.example"}},
+		}
 	})
 	env.enableFakeAws()
 	env.handler = env.buildHandler()
@@ -363,6 +370,8 @@ func TestVerif_C10(t *testing.T) {
 	}
 	// (d) malformed address extensions in otherwise trusted client certificates
 	verifCorruptExtensionProbe(env, res, good, "C10")
+	// (e) signed tokens of every kind, claim-dropped / type-confused / corrupted, at every token sink
+	c10TokenStage(t, env, res, rng)
 	var sb strings.Builder
 	sb.WriteString(coqCaseHeader)
 	sb.WriteString("From KM Require Import Base.Cases Model.KeyStrength.\nOpen Scope N_scope.\n")
